@@ -46,7 +46,8 @@ def chunks (x : Rs.W Bytes Unit) : Option (Except ZErr (List Bytes)) :=
 def view (f : Gen.ZipFileData) (g : FileData) : Prop :=
   Tie.Types.viewOf f g ∧ f.version_made_by = g.versionMadeBy ∧ f.encrypted = g.encrypted ∧
   Tie.DateTime.toModel f.last_modified_time = g.time ∧ f.crc32 = g.crc32 ∧
-  f.file_name = g.fileName ∧ f.extra_field = g.extraField ∧ f.large_file = g.largeFile
+  f.file_name = g.fileName ∧ f.extra_field = g.extraField ∧ f.large_file = g.largeFile ∧
+  f.using_data_descriptor = g.usingDataDescriptor
 
 /-- The model value of a generated `ZipFileData` (fields the translation drops are defaulted; no
 serialiser reads them). -/
@@ -64,7 +65,7 @@ def dataOf (f : Gen.ZipFileData) : FileData :=
       match p.2 with | .Ae1 => .ae1 | .Ae2 => .ae2) }
 
 theorem view_dataOf (f : Gen.ZipFileData) : view f (dataOf f) :=
-  ⟨⟨rfl, rfl, rfl, rfl, rfl, rfl⟩, rfl, rfl, rfl, rfl, rfl, rfl, rfl⟩
+  ⟨⟨rfl, rfl, rfl, rfl, rfl, rfl⟩, rfl, rfl, rfl, rfl, rfl, rfl, rfl, rfl⟩
 
 /-- Normal form of straight-line writer code: every primitive becomes an explicit ⟨outcome, log⟩
 pair and `bind` concatenates logs. -/
@@ -79,6 +80,7 @@ macro_rules
 
 theorem shl_1_11 : Rs.Arith.shl (1 : UInt16) 11 = some 0x0800 := by decide
 theorem shl_1_0 : Rs.Arith.shl (1 : UInt16) 0 = some 1 := by decide
+theorem shl_1_3 : Rs.Arith.shl (1 : UInt16) 3 = some 8 := by decide
 
 /-- `a + (x.len() as u16)` as a checked `u16` addition (after `len_as_u16`). -/
 theorem add_len_u16 (a : UInt16) (n : Nat) :
@@ -121,7 +123,7 @@ theorem tie_write_local_zip64_extra_field (f : Gen.ZipFileData) (g : FileData) (
 theorem tie_write_local_file_header (f : Gen.ZipFileData) (g : FileData) (h : view f g) :
     chunks (Gen.write_local_file_header (ω := Bytes) f) = ofOut (localHeaderChunks g) := by
   have hz := tie_write_local_zip64_extra_field f g h
-  obtain ⟨hv, hvm, he, ht, hcrc, hn, hx, hl⟩ := h
+  obtain ⟨hv, hvm, he, ht, hcrc, hn, hx, hl, hdd⟩ := h
   have hvn := Tie.Types.tie_version_needed f g hv
   have hm := Tie.Types.tie_method_to_u16 f.compression_method
   have htp := Tie.DateTime.tie_timepart f.last_modified_time
@@ -240,7 +242,7 @@ theorem tie_write_central_directory_header (f : Gen.ZipFileData) (g : FileData) 
     chunks (Gen.write_central_directory_header (ω := Bytes) f) = ofOut (centralHeaderChunks g) := by
   have hbuf := intoBuf_central (ω := Bytes) f g h
   have hzl := centralZip64Bytes_length_le g
-  obtain ⟨hv, hvm, he, ht, hcrc, hn, hx, hl⟩ := h
+  obtain ⟨hv, hvm, he, ht, hcrc, hn, hx, hl, hdd⟩ := h
   have hvn := Tie.Types.tie_version_needed f g hv
   have hm := Tie.Types.tie_method_to_u16 f.compression_method
   have htp := Tie.DateTime.tie_timepart f.last_modified_time
@@ -248,16 +250,17 @@ theorem tie_write_central_directory_header (f : Gen.ZipFileData) (g : FileData) 
   obtain ⟨hsys, hattr, hu, hc, hh, hmeth⟩ := hv
   unfold Gen.write_central_directory_header centralHeaderChunks
   simp only [hbuf, hvn, hm, htp, hdp, shl_system_8, ht, he, hn, hx, hcrc, hu, hc, hh, hmeth, hsys,
-    hattr, hvm]
+    hattr, hvm, hdd]
   have hia : ∀ bs, Rs.isAscii bs = isAscii bs := fun _ => rfl
   have h816 : ∀ x : UInt8, Rs.as' UInt16 x = x.toUInt16 := fun _ => rfl
   have hlt : (centralZip64Bytes g).length + g.extraField.length < 18446744073709551616 := by omega
   by_cases hov : (centralZip64Bytes g).length + g.extraField.length < 65536
   · have hov' : ¬ (centralZip64Bytes g).length + g.extraField.length > 65535 := by omega
     cases hd : g.time.datepart <;> cases hen : g.encrypted <;> cases hasc : isAscii g.fileName <;>
-      wsimp [datepartOut, flagOf, hd, hen, hasc, hia, h816, len_as_u16, add_elen _ _ hzl hlen,
+      cases hdesc : g.usingDataDescriptor <;>
+      wsimp [datepartOut, centralFlagOf, flagOf, hd, hen, hasc, hdesc, hia, h816, len_as_u16, add_elen _ _ hzl hlen,
         tryInto_u16 _ hlt, hov, hov', Rs.mapErr, Rs.W.ofExcept, sliceTo_prefix _ _ hzl, min32_tie,
-        shl_1_11, shl_1_0, Tie.Types.tie_central_sig, chunks, ofOut, Out.bind_panic, Out.bind_ok,
+        shl_1_11, shl_1_0, shl_1_3, Tie.Types.tie_central_sig, chunks, ofOut, Out.bind_panic, Out.bind_ok,
         Out.pure_def]
   · have hov' : (centralZip64Bytes g).length + g.extraField.length > 65535 := by omega
     wsimp [add_elen _ _ hzl hlen, tryInto_u16 _ hlt, hov, hov', Rs.mapErr, Rs.W.ofExcept,
@@ -394,7 +397,7 @@ theorem tie_validate_extra_data {ω : Type} (f : Gen.ZipFileData) (g : FileData)
     (hlen : g.extraField.length ≤ 9223372036854775807) :
     (Gen.validate_extra_data (ω := ω) f).log = [] ∧
     (Gen.validate_extra_data (ω := ω) f).res.map (Except.mapError zerrOf) = some (validateExtraData g) := by
-  obtain ⟨_, _, _, _, _, _, hx, hl⟩ := h
+  obtain ⟨_, _, _, _, _, _, hx, hl, _⟩ := h
   unfold Gen.validate_extra_data validateExtraData
   rw [hx, hl]
   obtain ⟨i1, i2⟩ := loop_tie (ω := ω) (g.extraField.length + 1) g.extraField (by omega) hlen
@@ -492,7 +495,7 @@ theorem tie_update_local_file_header (f : Gen.ZipFileData) (g : FileData) (h : v
           | .ok () => k ()
           | .error e => pure (.error (zerrOf e), s) := by
   obtain ⟨p, hp, hz⟩ := tie_update_local_zip64_extra_field f g h hpos
-  obtain ⟨⟨_, _, hu, hc, hh, _⟩, _, _, _, hcrc, hn, _, hl⟩ := h
+  obtain ⟨⟨_, _, hu, hc, hh, _⟩, _, _, _, hcrc, hn, _, hl, _⟩ := h
   have e14 : (14 : UInt64).toNat = 14 := by decide
   obtain ⟨a1, b1⟩ := add_u64 g.headerStart 14 (by rw [e14]; omega)
   have h32 : ∀ x : UInt64, Rs.as' UInt32 x = trunc32 x := fun _ => rfl
